@@ -63,6 +63,8 @@ func parseDirectives(fn *ssa.Function, cfg *Config) {
 	}
 }
 
+var droppedHarnessFiles []string
+
 type job struct {
 	fn     *ssa.Function
 	params map[string]int
@@ -102,19 +104,42 @@ func loadProgram(dir, pkgPat, overlayDir, rtTemplate string) (*ssa.Program, *ssa
 		Overlay: overlay,
 		Env:     append(os.Environ(), "GOFLAGS=-mod=mod", "GOPROXY=off", "GOSUMDB=off", "GOTOOLCHAIN=local"),
 	}
-	pkgs, err := packages.Load(cfg, "./"+pkgPat)
-	if err != nil {
-		return nil, nil, err
-	}
-	nerr := 0
-	packages.Visit(pkgs, nil, func(p *packages.Package) {
-		for _, e := range p.Errors {
-			fmt.Fprintln(os.Stderr, "LOAD ERROR:", e)
-			nerr++
+	var pkgs []*packages.Package
+	for round := 0; ; round++ {
+		pkgs, err = packages.Load(cfg, "./"+pkgPat)
+		if err != nil {
+			return nil, nil, err
 		}
-	})
-	if nerr > 0 {
-		return nil, nil, fmt.Errorf("%d load errors", nerr)
+		nerr := 0
+		dropNow := map[string]string{}
+		packages.Visit(pkgs, nil, func(p *packages.Package) {
+			for _, e := range p.Errors {
+				fmt.Fprintln(os.Stderr, "LOAD ERROR:", e)
+				nerr++
+				// a harness file that no longer type-checks against this tree (it uses an internal function whose
+				// signature changed, ...) is dropped and the load is retried: the harnesses in the other files still
+				// run; the dropped file is reported (machinery), never counted as passed
+				file := e.Pos
+				if i := strings.Index(file, ".go:"); i >= 0 {
+					file = file[:i+3]
+				}
+				if _, isOverlay := overlay[file]; isOverlay && !strings.HasSuffix(file, "zz_verif_rt.go") {
+					if _, seen := dropNow[file]; !seen {
+						dropNow[file] = e.Msg
+					}
+				}
+			}
+		})
+		if nerr == 0 {
+			break
+		}
+		if len(dropNow) == 0 || round >= 6 {
+			return nil, nil, fmt.Errorf("%d load errors", nerr)
+		}
+		for f, msg := range dropNow {
+			delete(overlay, f)
+			droppedHarnessFiles = append(droppedHarnessFiles, strings.TrimPrefix(filepath.Base(f), "zz_verif_")+": "+msg)
+		}
 	}
 	prog, spkgs := ssautil.AllPackages(pkgs, ssa.InstantiateGenerics)
 	prog.Build()
@@ -483,7 +508,7 @@ func summarizeAsserts(r *HarnessResult) string {
 }
 
 func emit(out string, rs []*HarnessResult, loadS, wallS float64) {
-	doc := map[string]interface{}{"results": rs, "load_s": loadS, "wall_s": wallS}
+	doc := map[string]interface{}{"results": rs, "load_s": loadS, "wall_s": wallS, "dropped_harness_files": droppedHarnessFiles}
 	data, _ := json.MarshalIndent(doc, "", " ")
 	if out == "" {
 		os.Stdout.Write(data)
